@@ -18,8 +18,9 @@
 //!  * timestamps are drawn below year 10000 (the RFC 3339 text form of later
 //!    instants does not parse back; that is judged by C16, not here).
 //!  * exact error values and the key order of JSON objects are not compared.
-//!  * `to_json` has no allocation clause in the property; only a gross sanity
-//!    bound (64 MiB + 1 KiB per input byte) is applied to hostile inputs.
+//!  * hostile conversions are bounded by counted work, not wall-clock: at most
+//!    64*len + 50 000 allocations and 64 MiB + 1 KiB*len live bytes per conversion; declared
+//!    byte-list / byte-array lengths beyond the input (up to 2^32-1) must be rejected within it.
 //!  * chrono is used to render the expected RFC 3339 text (shared with the library).
 use crate::util;
 use concordium_contracts_common::{from_bytes, schema::*, to_bytes, Cursor};
@@ -723,6 +724,9 @@ fn case_convert(sh: &mut Shard, idx: u64, r: &mut Rng) {
         } else {
             sh.hit("hostile.skipped_zero_width_collection");
         }
+        if !has_zero_width_collection(&ty) {
+            declared_length_class(sh, idx, r, &ty, &tbytes, &bytes);
+        }
     }
     // random (Type, bytes)
     if !has_zero_width_collection(&ty) {
@@ -738,7 +742,7 @@ fn case_convert(sh: &mut Shard, idx: u64, r: &mut Rng) {
 /// Permissive walk over (type, bytes) in the library's decoding order that records the largest
 /// length a `ByteList` / `ByteArray` would be read with. It stops only where the library must
 /// stop as well (end of input, undeclared enum variant, unterminated LEB128).
-fn walk(t: &Type, b: &[u8], pos: &mut usize, max_decl: &mut u64) -> Result<(), ()> {
+fn walk(t: &Type, b: &[u8], pos: &mut usize, max_decl: &mut u64, fields_at: &mut Vec<(usize, SizeLength)>) -> Result<(), ()> {
     fn take(b: &[u8], pos: &mut usize, n: usize) -> Result<(), ()> {
         if b.len() - *pos < n {
             *pos = b.len();
@@ -760,10 +764,10 @@ fn walk(t: &Type, b: &[u8], pos: &mut usize, max_decl: &mut u64) -> Result<(), (
         x[..w].copy_from_slice(&b[start..start + w]);
         Ok(u64::from_le_bytes(x))
     }
-    fn fields(f: &Fields, b: &[u8], pos: &mut usize, m: &mut u64) -> Result<(), ()> {
+    fn fields(f: &Fields, b: &[u8], pos: &mut usize, m: &mut u64, fa: &mut Vec<(usize, SizeLength)>) -> Result<(), ()> {
         match f {
-            Fields::Named(v) => v.iter().try_for_each(|(_, t)| walk(t, b, pos, m)),
-            Fields::Unnamed(v) => v.iter().try_for_each(|t| walk(t, b, pos, m)),
+            Fields::Named(v) => v.iter().try_for_each(|(_, t)| walk(t, b, pos, m, fa)),
+            Fields::Unnamed(v) => v.iter().try_for_each(|t| walk(t, b, pos, m, fa)),
             Fields::None => Ok(()),
         }
     }
@@ -776,31 +780,31 @@ fn walk(t: &Type, b: &[u8], pos: &mut usize, max_decl: &mut u64) -> Result<(), (
         Type::U128 | Type::I128 | Type::ContractAddress => take(b, pos, 16),
         Type::AccountAddress => take(b, pos, 32),
         Type::Pair(x, y) => {
-            walk(x, b, pos, max_decl)?;
-            walk(y, b, pos, max_decl)
+            walk(x, b, pos, max_decl, fields_at)?;
+            walk(y, b, pos, max_decl, fields_at)
         }
         Type::List(sl, x) | Type::Set(sl, x) => {
             let n = len(b, pos, *sl)?;
             for _ in 0..n.min(1 << 17) {
-                walk(x, b, pos, max_decl)?;
+                walk(x, b, pos, max_decl, fields_at)?;
             }
             Ok(())
         }
         Type::Map(sl, k, v) => {
             let n = len(b, pos, *sl)?;
             for _ in 0..n.min(1 << 17) {
-                walk(k, b, pos, max_decl)?;
-                walk(v, b, pos, max_decl)?;
+                walk(k, b, pos, max_decl, fields_at)?;
+                walk(v, b, pos, max_decl, fields_at)?;
             }
             Ok(())
         }
         Type::Array(n, x) => {
             for _ in 0..(*n as u64).min(1 << 17) {
-                walk(x, b, pos, max_decl)?;
+                walk(x, b, pos, max_decl, fields_at)?;
             }
             Ok(())
         }
-        Type::Struct(f) => fields(f, b, pos, max_decl),
+        Type::Struct(f) => fields(f, b, pos, max_decl, fields_at),
         Type::Enum(vs) => {
             let start = *pos;
             let i = if vs.len() <= 256 {
@@ -810,12 +814,12 @@ fn walk(t: &Type, b: &[u8], pos: &mut usize, max_decl: &mut u64) -> Result<(), (
                 take(b, pos, 2)?;
                 u16::from_le_bytes([b[start], b[start + 1]]) as usize
             };
-            fields(&vs.get(i).ok_or(())?.1, b, pos, max_decl)
+            fields(&vs.get(i).ok_or(())?.1, b, pos, max_decl, fields_at)
         }
         Type::TaggedEnum(m) => {
             let start = *pos;
             take(b, pos, 1)?;
-            fields(&m.get(&b[start]).ok_or(())?.1, b, pos, max_decl)
+            fields(&m.get(&b[start]).ok_or(())?.1, b, pos, max_decl, fields_at)
         }
         Type::String(sl) | Type::ContractName(sl) | Type::ReceiveName(sl) => {
             let n = len(b, pos, *sl)?;
@@ -832,6 +836,7 @@ fn walk(t: &Type, b: &[u8], pos: &mut usize, max_decl: &mut u64) -> Result<(), (
             Err(())
         }
         Type::ByteList(sl) => {
+            fields_at.push((*pos, *sl));
             let n = len(b, pos, *sl)?;
             *max_decl = (*max_decl).max(n);
             take(b, pos, usize::try_from(n).map_err(|_| ())?)
@@ -847,48 +852,95 @@ fn walk(t: &Type, b: &[u8], pos: &mut usize, max_decl: &mut u64) -> Result<(), (
 fn declared_bytelist_len(t: &Type, b: &[u8]) -> u64 {
     let mut m = 0;
     let mut pos = 0;
-    let _ = walk(t, b, &mut pos, &mut m);
+    let _ = walk(t, b, &mut pos, &mut m, &mut vec![]);
     m
 }
 
-fn hostile(sh: &mut Shard, idx: u64, ty: &Type, tbytes: &[u8], b: &[u8], kind: &str) {
-    // ByteList / ByteArray conversion loops over the *declared* length even after the input is
-    // exhausted (reported finding): lengths beyond 2^21 would take minutes and gigabytes, so they
-    // are not executed; lengths up to 2^21 are, and show up through the allocation bound
+/// offsets and widths of the `ByteList` length fields of a valid encoding
+fn bytelist_length_fields(t: &Type, b: &[u8]) -> Vec<(usize, SizeLength)> {
+    let mut v = vec![];
+    let _ = walk(t, b, &mut 0, &mut 0, &mut v);
+    v
+}
+
+/// Convert hostile bytes; returns true if a violation was reported. Work is bounded by counted
+/// allocations and bytes (not by wall-clock): a conversion may not perform more than
+/// 64*len + 50 000 allocations nor hold more than 64 MiB + 1 KiB*len.
+fn hostile(sh: &mut Shard, idx: u64, ty: &Type, tbytes: &[u8], b: &[u8], kind: &str) -> bool {
     let decl = declared_bytelist_len(ty, b);
-    if decl > (1 << 21) {
-        sh.hit("hostile.skipped_bytelist_length_beyond_2^21");
-        return;
-    }
-    if decl > (1 << 16) && decl as usize > b.len() && kind != "pinned" {
-        // the same defect every time (0.3 s and ~150 MB per execution): executed for the first
-        // few occurrences in a shard only, and reported through the pinned witness below
-        let n = sh.get("hostile.bytelist_loop_inputs");
-        sh.hit("hostile.bytelist_loop_inputs");
-        if n >= 2 {
-            sh.hit("hostile.bytelist_loop_inputs_not_executed");
-            return;
-        }
-    }
+    sh.max("max.hostile.declared_len", decl);
     sh.evaluations += 1;
     sh.hit(&format!("hostile.{}", kind));
     let (res, st) = vmon_core::alloc::measure(|| vmon_core::catch(|| ty.to_json(&mut Cursor::new(b)).is_ok()));
     sh.max("max.hostile.alloc_peak", st.peak as u64);
+    sh.max("max.hostile.alloc_count", st.count as u64);
     let case = || json!({"type_bytes_hex": vmon_core::hex(tbytes), "type": format!("{:?}", ty).chars().take(1200).collect::<String>(), "bytes_hex": vmon_core::hex(b)});
     match res {
-        Err(p) => sh.violate(idx, "convert-panic", format!("to_json-panic:{}:{}", util::hex_sig(tbytes), util::hex_sig(b)), format!("to_json panicked on hostile bytes: {}", p), case()),
+        Err(p) => {
+            sh.violate(idx, "convert-panic", format!("to_json-panic:{}:{}", util::hex_sig(tbytes), util::hex_sig(b)), format!("to_json panicked on hostile bytes: {}", p), case());
+            true
+        }
         Ok(ok) => {
             sh.hit(if ok { "hostile.accepted" } else { "hostile.rejected" });
-            if st.peak > (64 << 20) + 1024 * b.len() {
-                if decl as usize > b.len() && kind != "pinned" {
-                    // attribute to the pinned witness of the byte-list loop
-                    sh.hit("violation.alloc-bound");
-                    let pin_ty = Type::ByteList(SizeLength::U32);
-                    hostile(sh, idx, &pin_ty, &to_bytes(&pin_ty), &(1u32 << 21).to_le_bytes(), "pinned");
-                } else {
-                    sh.violate(idx, "alloc-bound", format!("to_json-alloc:{}:{}", util::hex_sig(tbytes), util::hex_sig(b)), format!("to_json on {} bytes under {:?} had {} bytes live at peak (largest single request {}, {} allocations): work and memory follow the declared length, not the input", b.len(), ty, st.peak, st.largest, st.count), case());
-                }
+            if st.peak > (64 << 20) + 1024 * b.len() || st.count > 64 * b.len() + 50_000 {
+                sh.violate(
+                    idx,
+                    "alloc-bound",
+                    format!("to_json-alloc:{}:{}", util::hex_sig(tbytes), util::hex_sig(b)),
+                    format!("to_json on {} bytes under {:?} performed {} allocations with {} bytes live at peak (largest single request {}): work and memory follow a declared length, not the input", b.len(), ty, st.count, st.peak, st.largest),
+                    case(),
+                );
+                return true;
             }
+            if ok && kind.starts_with("declared_") {
+                sh.violate(idx, "bytes-to-json", format!("to_json-accept:{}:{}", util::hex_sig(tbytes), util::hex_sig(b)), format!("to_json under {:?} accepts bytes whose declared byte length exceeds the input", ty), case());
+                return true;
+            }
+            false
+        }
+    }
+}
+
+/// The witness class of the byte-list loop: a declared `ByteList` length (or a schema-declared
+/// `ByteArray` length) far beyond the input, up to 2^32-1; ascending, stopping at the first
+/// violation so that a regression is seen while it is still cheap.
+fn declared_length_class(sh: &mut Shard, idx: u64, r: &mut Rng, ty: &Type, tbytes: &[u8], bytes: &[u8]) {
+    for (off, sl) in bytelist_length_fields(ty, bytes).into_iter().take(3) {
+        let w = match sl {
+            SizeLength::U8 => 1usize,
+            SizeLength::U16 => 2,
+            SizeLength::U32 => 4,
+            SizeLength::U64 => 8,
+        };
+        if off + w > bytes.len() {
+            continue;
+        }
+        let remaining = (bytes.len() - off - w) as u64;
+        let max = match sl {
+            SizeLength::U8 => 255u64,
+            SizeLength::U16 => 65535,
+            _ => u32::MAX as u64,
+        };
+        let mut ladder = vec![remaining + 1, 1 << 12, 1 << 20, r.range(1 << 20, u32::MAX as u64), max];
+        ladder.retain(|v| *v > remaining && *v <= max);
+        ladder.sort();
+        ladder.dedup();
+        for v in ladder {
+            let mut m = bytes.to_vec();
+            m[off..off + w].copy_from_slice(&v.to_le_bytes()[..w]);
+            if hostile(sh, idx, ty, tbytes, &m, "declared_bytelist_beyond_input") {
+                break;
+            }
+        }
+    }
+    // schema-declared byte array longer than the input
+    for n in [1u32 << 12, 1 << 20, r.range(1 << 20, u32::MAX as u64) as u32, u32::MAX] {
+        let t = Type::Pair(Box::new(Type::U8), Box::new(Type::ByteArray(n)));
+        let k = r.below(40) as usize;
+        let b = r.bytes(k);
+        sh.max("max.hostile.declared_len", n as u64);
+        if hostile(sh, idx, &t, &to_bytes(&t), &b, "declared_bytearray_beyond_input") {
+            break;
         }
     }
 }
